@@ -29,7 +29,7 @@ struct ProbeDriver {
   kb_end: bool, ended: bool,
   tablet: bool, just_switched: bool,
   interrupted_once: bool,
-  fail_at: Option<usize>, calls: usize, failed: bool,
+  fail_at: Option<usize>, calls: usize, failed: bool, spun: bool,
   log: Vec<String>,
   violations: Vec<(String, String)>,                          // (property, what)
   // reference
@@ -50,6 +50,12 @@ impl ProbeDriver {
       if let Some(rr) = &mut self.rep { if rr.open { rr.hi = entry + Duration::from_millis(rr.delay_ms as u64); rr.open = false; } }
     }
     self.calls += 1;
+    // a schedule has at most 17 wake-ups and a few dozen events: thousands of driver calls mean that the loop spins (for instance it never reads a device to Busy)
+    if self.calls > 4000 {
+      if !self.spun { self.spun = true; self.viol("C10", "the loop made more than 4000 driver calls for a schedule of at most 17 wake-ups: it spins instead of waiting".to_string()); }
+      self.failed = true; self.pending = None;
+      return Err("injected failure".to_string());
+    }
     if Some(self.calls) == self.fail_at { self.failed = true; self.pending = None; self.log.push(format!("{} -> Err(injected failure)", what)); return Err("injected failure".to_string()); }
     Ok(())
   }
@@ -198,7 +204,7 @@ fn run_case(seed: u64) -> (Vec<(String, String)>, Vec<String>, Layout, Vec<Event
   let fail_at = if r.below(3) == 0 { Some(1 + r.below(40)) } else { None };
   let now = Instant::now();
   let mut d = ProbeDriver { r, hist: hist.iter().cloned().collect(), wakeups_left: wakeups, kb_q: VecDeque::new(), tab_q: VecDeque::new(), kb_notified: false, tab_notified: false, kb_end: false, ended: false,
-                            tablet: false, just_switched: false, interrupted_once: false, fail_at, calls: 0, failed: false, log: Vec::new(), violations: Vec::new(),
+                            tablet: false, just_switched: false, interrupted_once: false, fail_at, calls: 0, failed: false, spun: false, log: Vec::new(), violations: Vec::new(),
                             refm: key_transforms::Mapper::for_layout(&layout), rep: None, pending: None, last_origin: Origin::Start, out_held: BTreeSet::new(), last_exit: now };
   let result = do_remapping_loop_one_device(&mut d, layout.clone(), false);
   d.log.push(format!("loop returned {:?}", result));
